@@ -9,6 +9,7 @@ The theorems are stated for the code in VERIF_REPO: `Gen.Wrap.cacheBufWords` (F4
 import DmlcModel.Wrap.Cached
 import DmlcModel.Wrap.Threaded
 import DmlcModel.Wrap.TIterLink
+import DmlcModel.Wrap.BaseLink
 
 namespace DmlcModel.Props.C10
 open DmlcModel DmlcModel.Wrap DmlcModel.Gen.Wrap
@@ -29,7 +30,9 @@ theorem C10_cache_format (cs : List Bytes) (h : ∀ c ∈ cs, c.length < 2 ^ 64)
 
 example : decodeFile (encAll [[1, 2, 3], [], [7]]) = [Item.chunk [1, 2, 3], Item.chunk [], Item.chunk [7]] := by decide
 
-/-- **CachedInputSplit is transparent**, for every base chunk sequence `cs` and every history: the first
+/-- **CachedInputSplit is transparent**, for every base chunk sequence `cs` (no BaseFacts needed: the cache
+wrapper never rewinds its base split, `cs` is simply what `NextChunkEx` yields until it returns false) and
+every history: the first
 object fetches exactly the base split's cells (pass 1 = base pass); in every state reachable by
 `NextRecord` / `NextChunk` / `BeforeFirst` / destroy-and-reopen (`CReach`) what the iterator will still
 fetch is a suffix of the base pass (chunks come in order, none invented); `BeforeFirst` at any point
@@ -76,9 +79,51 @@ theorem C10_cached_transparent (cs : List Chunk) (hl : ∀ c ∈ cs, c.bytes.len
 example : ∃ s, CReach [⟨[97, 10], 2⟩, ⟨[98, 10], 2⟩] s ∧ s.phase = .replay :=
   ⟨_, CReach.bf CReach.first rfl, rfl⟩
 
+/-- **BaseFacts — what the wrapper theorems assume about the base split, and why it holds.**  The Wrap model
+treats a pass of the base split over partition `(k, n)` as ONE chunk list `B k n` (`BasePass`; `iterParams B
+parts` makes item `i` of pass `p` the `i`-th element of `B (parts p)`), i.e. it assumes: whatever the base
+split has read or buffered before, the `ResetPartition(k, n)` / `BeforeFirst` that starts a pass (executed by
+the prefetch thread's rewind callback) makes the following `NextChunkEx` calls deliver exactly the chunk
+sequence of a freshly constructed split for that partition.  For the Split model this is C05:
+`C05_reset_mkSt` (used here) for `ResetPartition`, `C05_beforeFirst` + `C05_range_stable` for `BeforeFirst`
+(the object behaves as any clean object on the same byte range, in particular as right after its last
+`ResetPartition`), both for every format with `ExtractNoneIff` (`extractNoneIff_text`, `extractNoneIff_recordio`).
+Statement: after `ResetPartition(k, n)` on a bare split `s` in ANY state, consuming it to the end with
+`NextChunk` yields exactly the chunk byte strings of `splitPass F files w dw k n` -- the instantiation of
+`B` the driver runs (`Wrap/Base.lean`).  Not proved in Lean, tied by correspondence and by the harness
+oracle (chunk stream / cache file = the bare split's `NextChunk` stream): that `NextChunkEx` into a cell of
+the iterator yields the same bytes as `NextChunk` through the split's own `tmp_chunk_` (`Chunk::Load` does
+not depend on the cell it fills). -/
+theorem C10_base_pass (F : Split.Fmt) (hF : Split.ExtractNoneIff F) (s s' : Split.St) (k n : Nat) (hn : n ≠ 0)
+    (h : Split.step F s (.reset k n) = (s', .done)) (hbare : s'.wrap = none)
+    (files : List Bytes) (w dw : Nat)
+    (hfiles : s.base.files = files.filter (fun f => !f.isEmpty)) (hw : s.base.bufWords = w)
+    (fresh : Split.St) (hfresh : Split.mkSt F files k n w false dw = .ok fresh) :
+    convRes (Split.drain F (fun _ => false) s').2 = (splitPass F files w dw k n).map allBytes := by
+  rw [splitPass_partBlobs F files w dw k n hn]
+  unfold Split.partBlobs
+  rw [hfresh]
+  simp only
+  congr 1
+  apply DmlcModel.Props.C05.C05_reset_mkSt F hF s s' k n h files w dw false hfiles hw fresh hfresh
+  rw [hbare, mkSt_bare F files k n w dw fresh hfresh]
+  trivial
+
+/-- both formats of the repository satisfy the side condition -/
+example := C10_base_pass Split.Fmt.text Split.extractNoneIff_text
+example := C10_base_pass Split.Fmt.recordio Split.extractNoneIff_recordio
+
+/-- the instantiated base on a concrete input: "ab\ncd\n", 1-word buffer, part 0 of 1 = two chunks -/
+example : (match splitPass Split.Fmt.text [[97, 98, 10, 99, 100, 10]] 1 4 0 1 with
+    | .ok cs => some (allBytes cs)
+    | .error _ => none) = some [[97, 98, 10], [99, 100, 10]] := by
+  decide
+
 /-- **ThreadedInputSplit is transparent for every schedule** (corollary of the ThreadedIter theorems C07_order,
 C07_produced, C07_end_sound, C07_src_end, C07_no_failure, C08_fresh_pass, via `Wrap.titerFacts`; the base split
-is the data source: item `i` of pass `p` is chunk `i` of the partition `parts p`, see `iterParams`).  In every
+is the data source: item `i` of pass `p` is chunk `i` of `B (parts p)`, see `iterParams`; that a pass of the
+base split is such a fixed list is BaseFacts = C05, see `C10_base_pass`; `parts p` = the partition the
+latest `ResetPartition` before the `p`-th rewind asked for, any function -- the theorem holds for all).  In every
 reachable state of the iterator -- i.e. under every interleaving of the prefetch thread with the wrapper's
 calls, spurious wake-ups included -- the chunks handed to the caller so far in the current pass are an
 initial segment of the base split's chunk sequence for that pass, each delivered item is a chunk of it, and
